@@ -34,6 +34,7 @@ CONSTANTS
   FaultBudget = 1
   FixFirstNum = TRUE
   Combined = %(comb)s
+  AckStyles = {%(styles)s}
   FaultAt = {%(at)s}
   NetAt = {%(at)s}
 %(extra)s
@@ -50,7 +51,8 @@ def cset(xs):
 # ------------------------------------------------------------------ model behaviour -> schedule
 def behaviour_to_schedule(beh, seed):
     sched = {"mid0": (seed * 131) & 0xFFFF, "tok0": (seed * 17) & 0xFFFF, "code": 2, "N": 0, "C": 0,
-             "reps": [{"len": 0, "etag": True}, {"len": 0, "etag": True}], "s1": [], "s2": [], "net": {}, "fault": None,
+             "reps": [{"len": 0, "etag": True}, {"len": 0, "etag": True}], "s1": [], "s2": [], "ack": [], "ackcode": 68,
+             "net": {}, "fault": None,
              "dedup": True, "con": True}
     expected = []
     for label, st in beh[1:]:
@@ -66,6 +68,7 @@ def behaviour_to_schedule(beh, seed):
         elif a == "srv":
             if act["b1"]:
                 sched["s1"].append(act["a1"])
+                sched["ack"].append(act["st"])
             if act["sv"]:
                 sched["s2"].append(act["a2"])
             for e in st.get("emit", []):
@@ -77,6 +80,7 @@ def behaviour_to_schedule(beh, seed):
             if act["fate"] != "ok":
                 sched["net"][str(act["nreq"])] = act["fate"]
     sched["s1"] = sched["s1"] or [2]
+    sched["ack"] = sched["ack"] or ["a"]
     sched["s2"] = sched["s2"] or [2]
     return sched, expected
 
@@ -115,6 +119,16 @@ def szx_list(rng):
     return lst
 
 
+def ack_style(rng):
+    """atomic / stateless / mixed acknowledgement of the Block1 requests that are not the last one"""
+    r = rng.random()
+    if r < 0.45:
+        return ["a"]
+    if r < 0.8:
+        return ["s"]
+    return [rng.choice("as") for _ in range(rng.randint(2, 8))]
+
+
 def random_schedule(rng, i):
     N = rng.choice(LENS) if rng.random() < 0.85 else rng.randint(0, 2600)
     M = rng.choice(LENS) if rng.random() < 0.85 else rng.randint(0, 2600)
@@ -143,6 +157,7 @@ def random_schedule(rng, i):
         "N": N, "C": C,
         "reps": [{"len": M, "etag": etag}, {"len": M + rng.choice([0, 0, 1, 16, 1000]), "etag": True}],
         "s1": s1, "s2": s2, "net": net, "fault": fault,
+        "ack": ack_style(rng), "ackcode": rng.choice([68, 68, 65]),
         "dedup": rng.random() < 0.7,
         "con": True if net else rng.random() < 0.85,
     }
@@ -171,8 +186,21 @@ def matrix_schedules(rng):
                         "s1": [szx] if rng.random() < 0.7 else [szx, max(0, szx - 1)],
                         "s2": [szx] if rng.random() < 0.7 else [szx, max(0, szx - 1)],
                         "net": net, "fault": {"kind": kind, "nth": nth, "short": rng.choice([1, size // 2, size - 1])},
+                        "ack": ack_style(rng), "ackcode": rng.choice([68, 65]),
                         "dedup": rng.random() < 0.7, "con": True,
                     })
+    # fault-free uploads of 2, 3, 5 (and after a reduction more) blocks against every acknowledgement style
+    for ack in (["a"], ["s"], ["s", "a"], ["a", "s"], ["a", "s", "s"]):
+        for blocks in (2, 3, 5):
+            for szx in (0, 3, 6):
+                size = 2 ** (szx + 4)
+                N = max(blocks * size - rng.choice([0, 1, size - 1]), 1125 if szx == 6 else 0)
+                out.append({
+                    "mid0": rng.randint(0, 65535), "tok0": rng.randint(0, 65535), "code": rng.choice([2, 3]),
+                    "N": N, "C": szx, "reps": [{"len": rng.choice([0, 5, size + 1]), "etag": True}],
+                    "s1": [szx] if rng.random() < 0.6 else [szx, max(0, szx - 1)], "s2": [szx],
+                    "net": {}, "fault": None, "ack": ack, "ackcode": rng.choice([68, 65]), "dedup": True, "con": True,
+                })
     return out
 
 
@@ -255,16 +283,16 @@ def work(rep, args):
     # quick: every length within one byte of a block boundary of any modelled size; thorough: every length
     edgeN = sorted({x for b in range(0, 131, 16) for x in (b - 1, b, b + 1) if 0 <= x <= 130} | {130})
     if quick:
-        consts = dict(Ns=edgeN, Ms=edgeN, NsWide=[65], MsFew=[0, 40])
+        consts = dict(Ns=edgeN, Ms=edgeN, NsWide=[65], MsFew=[0, 40], styles=['"a"', '"s"'])
     else:
-        consts = dict(Ns=allN, Ms=allN, NsWide=[0, 20, 70, 130], MsFew=[0, 10, 40, 100])
+        consts = dict(Ns=allN, Ms=allN, NsWide=[0, 20, 70, 130], MsFew=[0, 10, 40, 100], styles=['"a"', '"s"', '"as"', '"sa"'])
     with tlc.Workdir() as wd:
         def mc():
             cfg = "BlockClient_mc.cfg"
             wd.write(cfg, CFG % dict({k: cset(v) for k, v in consts.items()}, at="0", comb="FALSE" if quick else "TRUE", extra="VIEW View\nINVARIANT NoBad\nINVARIANT Completes"))
             return tlc.run(wd, "BlockClient.tla", cfg, timeout=600 if quick else 2400, heap="8g")
 
-        wd.write("BlockClient_sim.cfg", CFG % dict(Ns=cset(allN), Ms=cset(edgeN + [7, 40, 100]), NsWide=cset(allN), MsFew="0", at=cset(range(1, 15)), comb="TRUE", extra=""))
+        wd.write("BlockClient_sim.cfg", CFG % dict(Ns=cset(allN), Ms=cset(edgeN + [7, 40, 100]), NsWide=cset(allN), MsFew="0", at=cset(range(1, 15)), comb="TRUE", styles='"a", "s", "as", "sa"', extra=""))
         simdir = wd.file("sim")
         os.makedirs(simdir)
         nsim = 300 if quick else 4000
@@ -310,7 +338,8 @@ def work(rep, args):
         # ---- what was actually exercised
         kinds = {}
         stats = {"success": 0, "error": 0, "reductions": 0, "loss_or_dup": 0, "block1_transfers": 0, "block2_transfers": 0,
-                 "events": 0, "never_completed": 0}
+                 "events": 0, "never_completed": 0, "stateless_block1_acks": 0, "atomic_block1_acks": 0,
+                 "transfers_with_both_ack_styles": 0}
         errclasses = {}
         for res in results:
             ev = res["events"]
@@ -320,6 +349,19 @@ def work(rep, args):
             stats["reductions"] += red
             stats["loss_or_dup"] += loss
             stats["block1_transfers"] += any(e["k"] == "req" and e["b1n"] > 0 for e in ev)
+            # acknowledgements of Block1 requests that are not the last one: 2.31/M=1 (atomic) or 2.xx/M=0 (stateless)
+            lastreq, na, ns = None, 0, 0
+            for e in ev:
+                if e["k"] == "req":
+                    lastreq = e
+                elif e["k"] == "resp" and not e["rt"] and lastreq is not None and lastreq["b1m"] == 1 and e["b1n"] >= 0:
+                    if e["code"] == 95:
+                        na += 1
+                    elif e["b1m"] == 0 and 64 <= e["code"] < 96:
+                        ns += 1
+            stats["atomic_block1_acks"] += na
+            stats["stateless_block1_acks"] += ns
+            stats["transfers_with_both_ack_styles"] += bool(na and ns)
             stats["block2_transfers"] += any(e["k"] == "req" and e["b2n"] > 0 for e in ev)
             dn = [e for e in ev if e["k"] == "done"]
             if not dn:
@@ -335,13 +377,14 @@ def work(rep, args):
             stats["fault_kinds_never_delivered"] = missing
             if len(missing) > 2:
                 raise MachineryError("faults never delivered to the implementation: %s" % missing)
-            for key in ("success", "error", "reductions", "loss_or_dup", "block1_transfers", "block2_transfers"):
+            for key in ("success", "error", "reductions", "loss_or_dup", "block1_transfers", "block2_transfers",
+                        "stateless_block1_acks", "atomic_block1_acks", "transfers_with_both_ack_styles"):
                 if not stats[key]:
                     raise MachineryError("vacuous run: no recorded transfer with %s" % key)
         rep.coverage.update(
             {
                 "states": mcr.distinct, "transitions": mcr.generated, "depth": mcr.depth, "mc_wall_s": round(mcr.wall, 1),
-                "mc_constants": {"request_lengths": len(consts["Ns"]), "representation_lengths": len(consts["Ms"]),
+                "mc_constants": {"block1_acknowledgement_styles": [x.strip('"') for x in consts["styles"]], "request_lengths": len(consts["Ns"]), "representation_lengths": len(consts["Ms"]),
                                  "request_lengths_combined_with_all_representation_lengths": consts["NsWide"],
                                  "representation_lengths_combined_with_all_request_lengths": consts["MsFew"],
                                  "size_exponents": [0, 1, 2], "faults_per_transfer": 1, "lost_or_duplicated_per_transfer": 1,
